@@ -83,6 +83,7 @@ def run_case(spec):
     # (b) by construction: the solver-space trial point is inside the solver-space box
     pb = t.pb
     kinds = set()
+    run_mag = None
     for rec in t.evals:
         kinds.add(rec["kind"])
         out.label("eval:" + rec["kind"])
@@ -91,6 +92,14 @@ def run_case(spec):
             continue
         tol = 16 * S.EPS * np.maximum(1.0, np.maximum(np.abs(xa), np.maximum(
             np.where(np.isfinite(xl), np.abs(xl), 0.0), np.where(np.isfinite(xu), np.abs(xu), 0.0))))
+        # the trial point is x_from + step: a step that goes exactly to a bound from a far-away centre
+        # (|x_from| >> |bound|) lands within one ulp of |x_from| of it, not of the bound
+        # ... and the next centres inherit that offset, so the magnitude is the largest one seen so far in the run
+        xf = rec.get("x_from")
+        if xf is not None and np.shape(xf) == xa.shape and np.all(np.isfinite(xf)):
+            run_mag = np.abs(xf) if run_mag is None or run_mag.shape != xa.shape else np.maximum(run_mag, np.abs(xf))
+        if run_mag is not None and run_mag.shape == xa.shape:
+            tol = np.maximum(tol, 16 * S.EPS * run_mag)
         excess = np.maximum(xl - xa, xa - xu)
         if np.any(excess > tol):
             out.fail("C01.b." + rec["kind"], "the %s trial point leaves the box by %.3g before projection "
@@ -102,6 +111,7 @@ def run_case(spec):
             free = ~pb._fixed_idx
             img = xa * pb._scaling_factor + pb._scaling_shift
             tol2 = 16 * S.EPS * np.maximum(1.0, np.abs(xa) * np.abs(pb._scaling_factor) + np.abs(pb._scaling_shift))
+            tol2 = np.maximum(tol2, tol * np.abs(pb._scaling_factor))  # same history-dependent magnitude as above
             moved = np.abs(xuser[free] - img)
             if np.any(moved > tol2) and not np.any(excess > tol):
                 out.fail("C01.b.image", "the user-space point differs from the affine image of the trial "
